@@ -29,6 +29,8 @@ VFalse == 3         \* initial value of context.failed
 VCaller == 4        \* text of the step that calls execute_steps
 VSub == 5           \* table of the sub-step
 VNone == 6          \* None (initial text/table; table of the caller; text of the sub-step)
+VTextOf(l) == 10 + l    \* nested execute_steps: multi-line text / table of the step at nesting level l (0 = the caller)
+VTableOf(l) == 20 + l
 \* layers: 0 = unnamed (scoped_context_layer(context)), 1..4 = LayerName, 5 = a name that is never on the stack
 LayerName == <<"testrun", "feature", "rule", "scenario">>
 \* exception codes
@@ -56,11 +58,18 @@ OpUseFixture(kind, id, rz) == <<11, id, rz, kind>>    \* kind 1 generator, 2 pla
 OpSwitchMode == <<12, 0, 0, 0>>
 OpExecSteps(ok) == <<13, ok, 0, 0>>                   \* ok = 1: sub-step passes, 0: sub-step fails
 OpEndRun == <<14, 0, 0, 0>>                           \* ModelRunner.run_model: _do_cleanups() of the testrun layer
+\* nested execute_steps: the caller (level 0) runs a sub-step (level 1) whose step function calls execute_steps
+\* again, ... down to level `depth` (2 or 3); shapes = SUM shape_l * 3^l, shape_l: 0 the step of level l has neither
+\* text nor table, 1 a text, 2 a table; ok = 0: the innermost sub-step fails
+OpExecNested(depth, shapes, ok) == <<15, depth, shapes, ok>>
+OpNewContext == <<16, 0, 0, 0>>                       \* the run is over; a second Context is built in the same process
 OpName == <<"push", "pop", "set", "setroot", "get", "has", "del", "use_or_assign", "use_or_create",
-            "add_cleanup", "use_fixture", "switch_mode", "execute_steps", "end_run">>
+            "add_cleanup", "use_fixture", "switch_mode", "execute_steps", "end_run", "execute_nested", "new_context">>
 \* keys of log entries / cleanup registrations: 1000 * seq + 100 * kind + id
 \*   kind 0: bare callable (seq = 0: the identity is the callable itself), 1: callable registered with args,
-\*   2: teardown part of a generator fixture, 3: setup part of a fixture (id 99: the failing fixture)
+\*   2: teardown part of a generator fixture, 3: setup part of a fixture (id 99: the failing fixture),
+\*   3 + l (l = 1, 2): what the step function of nesting level l saw after ITS execute_steps call came back:
+\*   id = 10 * digit(text) + digit(table), digit: 0 None, 1 + k the text/table of level k, 9 anything else
 Key(seq, kind, id) == 1000 * seq + 100 * kind + id
 KeyKind(k) == (k % 1000) \div 100
 
@@ -178,6 +187,29 @@ DoExecSteps(s, ok) ==
                            <<NmTable, VNone>>, <<NmText, VCaller>> >>)
    IN Res([r.s EXCEPT !.mode = s.mode], IF r.e # ENone THEN r.e ELSE IF ok = 1 THEN ENone ELSE EAssert, 0, 0, <<>>)
 
+Pow3(l) == CASE l = 0 -> 1 [] l = 1 -> 3 [] l = 2 -> 9 [] l = 3 -> 27 [] OTHER -> 81
+ShapeAt(shapes, l) == (shapes \div Pow3(l)) % 3
+TextAt(shapes, l) == IF ShapeAt(shapes, l) = 1 THEN VTextOf(l) ELSE VNone
+TableAt(shapes, l) == IF ShapeAt(shapes, l) = 2 THEN VTableOf(l) ELSE VNone
+Digit(v) == IF v = VNone THEN 0 ELSE IF v \in 10..13 THEN v - 9 ELSE IF v \in 20..23 THEN v - 19 ELSE 9
+\* what the levels depth-1 .. 1 report (innermost first) when every level sees ITS OWN text/table again
+OwnProbes(depth, shapes, seq) ==
+   [j \in 1..(depth - 1) |-> LET l == depth - j IN Key(seq, 3 + l, 10 * Digit(TextAt(shapes, l)) + Digit(TableAt(shapes, l)))]
+\* every execute_steps call keeps the caller's text/table in LOCAL variables and assigns them back in its `finally`,
+\* so the calls nest: Step.run of level l assigns text_l/table_l, the call made by level l restores them afterwards
+RECURSIVE NestSets(_, _, _)
+NestSets(shapes, l, depth) ==       \* the assignments from Step.run of level l to the `finally` of the call that ran it
+   IF l > depth THEN <<>>
+   ELSE << <<NmText, TextAt(shapes, l)>>, <<NmTable, TableAt(shapes, l)>> >> \o NestSets(shapes, l + 1, depth)
+        \o << <<NmTable, TableAt(shapes, l - 1)>>, <<NmText, TextAt(shapes, l - 1)>> >>
+DoExecNested(s, depth, shapes, ok, seq) ==
+   LET sb == [s EXCEPT !.mode = 1]
+       r == SetMany(sb, << <<NmText, TextAt(shapes, 0)>>, <<NmTable, TableAt(shapes, 0)>> >> \o NestSets(shapes, 1, depth))
+   IN Res([r.s EXCEPT !.mode = s.mode], IF r.e # ENone THEN r.e ELSE IF ok = 1 THEN ENone ELSE EAssert, 0, 0,
+          OwnProbes(depth, shapes, seq))
+\* a new Context(runner): nothing of the previous one is left
+DoNewContext(s) == Res(SInit, ENone, 0, 0, <<>>)
+
 Apply(s, op, seq) ==
    CASE op[1] = 1 -> DoPush(s, op[2])
      [] op[1] = 2 -> DoPop(s)
@@ -192,6 +224,8 @@ Apply(s, op, seq) ==
      [] op[1] = 11 -> DoUseFixture(s, op[2], op[3], op[4], seq)
      [] op[1] = 12 -> DoSwitchMode(s)
      [] op[1] = 13 -> DoExecSteps(s, op[2])
+     [] op[1] = 15 -> DoExecNested(s, op[2], op[3], op[4], seq)
+     [] op[1] = 16 -> DoNewContext(s)
      [] OTHER -> DoEndRun(s)
 
 \* ============================================================ (P) property monitor
@@ -202,8 +236,11 @@ Apply(s, op, seq) ==
 \*   once (this is what add_cleanup's "AVOID DUPLICATES" promises); only its position in the LIFO order is not
 \*   determined by the statement (pairs with n > 1 are not judged by cleanup_lifo).  A registration with args is a
 \*   cleanup of its own (key per registration).
-MFrame(l) == [layer |-> l, attrs |-> [i \in 1..NP |-> Absent], regs |-> <<>>]
-MInit == << [layer |-> 1, attrs |-> <<Absent, Absent, VFalse, VNone, VNone>>, regs |-> <<>>] >>
+\*   done (used in the root frame only) = keys of cleanups whose scope has ended: they must never run again, not at
+\*   the end of another scope and not when a LATER Context of the same process ends
+MFrame(l) == [layer |-> l, attrs |-> [i \in 1..NP |-> Absent], regs |-> <<>>, done |-> {}]
+MInit == << [layer |-> 1, attrs |-> <<Absent, Absent, VFalse, VNone, VNone>>, regs |-> <<>>, done |-> {}] >>
+RegKeys(regs) == {regs[j].key : j \in DOMAIN regs}
 
 \* R3/R4: after a deviation the monitor does not guess what the implementation's frames look like: the names
 \* concerned become Unknown (in the frame concerned, or everywhere) and views through an Unknown entry are not
@@ -219,7 +256,7 @@ ViewV(fr, ob, clause) == IF Bad(fr, ob) = {} THEN {} ELSE {<<clause, "view">>}
 Forget(fr, S) == [k \in DOMAIN fr |-> [fr[k] EXCEPT !.attrs = [i \in 1..NP |-> IF i \in S THEN Unknown ELSE @[i]]]]
 
 \* the scope with registrations `regs` ends and `ran` was executed
-ScopeEndV(regs, ran, e) ==
+ScopeEndV(regs, ran, e, done) ==
    LET keys == {regs[j].key : j \in DOMAIN regs}
        raisedRan == \E j \in DOMAIN regs : regs[j].rz = 1 /\ Count(ran, regs[j].key) > 0
        missed == {j \in DOMAIN regs : Count(ran, regs[j].key) = 0}
@@ -230,7 +267,8 @@ ScopeEndV(regs, ran, e) ==
        {<<"cleanup_once", "missed">> : j \in {x \in missed : ~raisedRan /\ KeyKind(regs[x].key) # 2}},
        {<<"fixture_cleanup", "repeated">> : j \in {x \in over : KeyKind(regs[x].key) = 2}},
        {<<"cleanup_once", "repeated">> : j \in {x \in over : KeyKind(regs[x].key) # 2}},
-       {<<"cleanup_layer", "foreign">> : j \in {x \in DOMAIN ran : ran[x] \notin keys}},
+       {<<"cleanup_once", "again">> : j \in {x \in DOMAIN ran : ran[x] \notin keys /\ ran[x] \in done}},
+       {<<"cleanup_layer", "foreign">> : j \in {x \in DOMAIN ran : ran[x] \notin keys /\ ran[x] \notin done}},
        IF \E i, j \in DOMAIN regs : /\ i < j /\ regs[i].n = 1 /\ regs[j].n = 1
                                     /\ Count(ran, regs[i].key) = 1 /\ Count(ran, regs[j].key) = 1
                                     /\ FirstPos(ran, regs[i].key) < FirstPos(ran, regs[j].key)
@@ -251,13 +289,14 @@ MonCase(m, op, ob, seq) ==
        ret == ObsR(ob)
        n == op[2]
    IN CASE c = 1 -> LET f == Append(m, MFrame(op[2])) IN MR(f, ViewV(f, ob, "visible") \cup EarlyV(ran), {ENone})
-        [] c = 2 -> LET f == IF d = 1 THEN m ELSE SubSeq(m, 1, d - 1)
+        [] c = 2 -> LET f0 == IF d = 1 THEN m ELSE SubSeq(m, 1, d - 1)
+                        f == [f0 EXCEPT ![1].done = @ \cup RegKeys(m[d].regs)]
                         bad == Bad(f, ob)
                     IN MR(f, {<<"shadow", "view">> : i \in {x \in bad : m[d].attrs[x] # Absent /\ MLk(f, x) # Absent}}
                              \cup {<<"scope_end", "view">> : i \in {x \in bad : ~(m[d].attrs[x] # Absent /\ MLk(f, x) # Absent)}}
-                             \cup ScopeEndV(m[d].regs, ran, e), 0..9)
-        [] c = 14 -> LET f == [m EXCEPT ![d].regs = <<>>]
-                     IN MR(f, ViewV(f, ob, "visible") \cup ScopeEndV(m[d].regs, ran, e), 0..9)
+                             \cup ScopeEndV(m[d].regs, ran, e, m[1].done), 0..9)
+        [] c = 14 -> LET f == [m EXCEPT ![d].regs = <<>>, ![1].done = @ \cup RegKeys(m[d].regs)]
+                     IN MR(f, ViewV(f, ob, "visible") \cup ScopeEndV(m[d].regs, ran, e, m[1].done), 0..9)
         [] c = 3 -> LET f == [m EXCEPT ![d].attrs[n] = op[3]] IN MR(f, ViewV(f, ob, "visible") \cup EarlyV(ran), {ENone})
         [] c = 4 -> LET f == [m EXCEPT ![1].attrs[n] = op[3]] IN MR(f, ViewV(f, ob, "root_attr") \cup EarlyV(ran), {ENone})
         [] c = 5 -> LET x == MLk(m, n)
@@ -298,6 +337,17 @@ MonCase(m, op, ob, seq) ==
                           [] kind = 3 -> MR(m, sv \cup ViewV(m, ob, "visible"), {ENone, ESetup})
                           [] OTHER -> LET f == [m EXCEPT ![d].regs = Append(@, reg)] IN MR(f, sv \cup ViewV(f, ob, "visible"), {ENone, ESetup})
         [] c = 12 -> MR(m, ViewV(m, ob, "visible") \cup EarlyV(ran), {ENone})
+        [] c = 15 -> \* after EVERY return (also by AssertionError) the step that called execute_steps has its own text/table
+                     LET f == [m EXCEPT ![d].attrs[NmText] = TextAt(op[3], 0), ![d].attrs[NmTable] = TableAt(op[3], 0)]
+                         bad == Bad(f, ob)
+                         how == IF op[4] = 1 THEN "nested_ok" ELSE "nested_failure"
+                     IN MR(f, (IF bad \cap {NmText, NmTable} # {} \/ ran # OwnProbes(op[2], op[3], seq) THEN {<<"exec_steps_restore", how>>} ELSE {})
+                              \cup (IF bad \ {NmText, NmTable} # {} THEN {<<"visible", "view">>} ELSE {}),
+                           IF op[4] = 1 THEN {ENone} ELSE {ENone, EAssert})
+        [] c = 16 -> \* the new Context starts empty; every cleanup registered so far is finished
+                     LET all == UNION {RegKeys(m[k].regs) : k \in DOMAIN m} \cup m[1].done
+                         f == [MInit EXCEPT ![1].done = all]
+                     IN MR(f, ViewV(f, ob, "scope_end") \cup EarlyV(ran), {ENone})
         [] OTHER -> LET f == [m EXCEPT ![d].attrs[NmText] = VCaller, ![d].attrs[NmTable] = VNone]
                         bad == Bad(f, ob)
                     IN MR(f, (IF bad \cap {NmText, NmTable} # {} THEN {<<"exec_steps_restore", IF op[2] = 1 THEN "after_ok" ELSE "after_failure">>} ELSE {})
@@ -311,11 +361,11 @@ MonStep(m, op, ob, seq) ==
        d == Len(m)
    IN IF ObsE(ob) \notin r.ok
       THEN \* an exception the operation must not raise: one verdict; whether the operation took effect is not known
-           LET base == CASE c \in {1, 2, 14} -> r.fr
+           LET base == CASE c \in {1, 2, 14, 16} -> r.fr
                          [] c \in {3, 7, 8, 9} -> [m EXCEPT ![d].attrs[op[2]] = Unknown]
                          [] c = 4 -> [m EXCEPT ![1].attrs[op[2]] = Unknown]
                          [] c = 11 /\ op[4] = 2 -> [m EXCEPT ![d].attrs[NmA] = Unknown]
-                         [] c = 13 -> Forget(m, {NmText, NmTable})
+                         [] c \in {13, 15} -> Forget(m, {NmText, NmTable})
                          [] OTHER -> m
            IN [m |-> Forget(base, Bad(base, ob)), v |-> {<<"api_errors", ExcTag(ObsE(ob))>>}]
       ELSE [m |-> IF r.v = {} THEN r.fr ELSE Forget(r.fr, Bad(r.fr, ob)), v |-> r.v]
